@@ -219,11 +219,13 @@ def forwarding_to_own(b, effs, ctx, name):
     return None
 
 
-def r_seed(F, R, cat=None):
+def r_seed(F, R, cat=None, only=None):
     """default(), clear(), merge_regions() agree on post-construction content"""
     cat = cat or Catalogue(F)
     n = 0
     for adt in cat.local_types():
+        if only and short(adt) not in only:
+            continue
         dflt = default_values(cat, adt)
         if dflt is None:
             continue
@@ -273,7 +275,7 @@ def r_seed(F, R, cat=None):
                         where=b.where(),
                         detail="default() seeds %s, merge_regions() seeds %s" % (want, got))
                 n += 1
-    R.floor("R-SEED", "seed agreement obligations", n, 2)
+    R.floor("R-SEED", "seed agreement obligations", n, 2 if not only else 0)
 
 
 def _is_child_ctor_arg(seed):
@@ -309,10 +311,12 @@ def fresh_value(ctx, origin, effs, depth=0):
     return False, "derives from %s" % describe(ctx, origin)
 
 
-def r_fresh(F, R, cat=None):
+def r_fresh(F, R, cat=None, only=None):
     cat = cat or Catalogue(F)
     n = 0
     for adt in cat.types:
+        if only and short(adt) not in only:
+            continue
         bodies = cat.methods(adt, "merge_regions", "Region")
         if adt == "FlatStack":
             bodies = cat.methods(adt, "merge_capacity") + cat.methods(adt, "with_capacity")
@@ -368,7 +372,7 @@ def r_fresh(F, R, cat=None):
                                 construct="%s into field %s" % (e.tag[1], fr[0]), where=e.where(),
                                 detail="; ".join(v[1] for v in vals))
                         n += 1
-    R.floor("R-FRESH", "constructed-field obligations", n, 15)
+    R.floor("R-FRESH", "constructed-field obligations", n, 15 if not only else 1)
 
 
 # ---------------------------------------------------------------------------------------------
@@ -446,7 +450,7 @@ def r_reserve_only(F, R, cat=None):
 # R-CLONE
 
 
-def r_clone(F, R, cat=None):
+def r_clone(F, R, cat=None, only=None):
     cat = cat or Catalogue(F)
     n_clone = 0
     n_from = 0
@@ -454,6 +458,8 @@ def r_clone(F, R, cat=None):
         if b.in_tests() or b.derived:
             continue
         adt = b.self_adt
+        if only and short(adt or "") not in only:
+            continue
         if adt not in F.adts:
             continue
         a = F.adts[adt]
@@ -543,8 +549,8 @@ def r_clone(F, R, cat=None):
                 ok = bool(sites) and not b.can_return_avoiding(sites)
                 R.check("R-CLONE", b.label(), ok, construct="field " + f, where=b.where(),
                         detail="; ".join(why) or "field not updated from source")
-    R.floor("R-CLONE", "hand-written clone bodies", n_clone, 13)
-    R.floor("R-CLONE", "hand-written clone_from bodies", n_from, 11)
+    R.floor("R-CLONE", "hand-written clone bodies", n_clone, 13 if not only else 1)
+    R.floor("R-CLONE", "hand-written clone_from bodies", n_from, 11 if not only else 1)
 
 
 # ---------------------------------------------------------------------------------------------
